@@ -186,6 +186,7 @@ impl Report {
         let mut known_keys = Vec::new();
         let (mut gate_reproduced, mut gate_unsupported, mut gate_failed, mut gate_blocking) = (0u64, 0u64, 0u64, 0u64);
         let replay_dir = PathBuf::from(VERIF_DIR).join("replays").join(self.prop);
+        let mut lines: Vec<(String, bool)> = Vec::new();
         for (key, (count, vs)) in &self.violations {
             if let Some(f) = known.matches(self.prop, key) {
                 n_known_total += count;
@@ -224,7 +225,8 @@ impl Report {
                 // determinism gate: the replay record is re-executed twice without the explorer; a
                 // violation that its own record does not reproduce is not reported as a verdict
                 // (C12 and the OS-timed pipe confirmations are about run-to-run variation itself)
-                if printed < 6 {
+                let mut not_reproduced_here = false;
+                if printed < 20 {
                     let timing = self.prop == "C12" || v.key.contains("pipe");
                     let runs: Vec<Option<Vec<String>>> = (0..2).map(|_| crate::props::replay_case(self.prop, &v.replay)).collect();
                     match (&runs[0], &runs[1]) {
@@ -242,12 +244,22 @@ impl Report {
                             );
                             if !timing {
                                 gate_blocking += 1;
+                                not_reproduced_here = true;
                             }
                         }
                     }
                 }
-                println!("VIOLATION property={} replay={}", self.prop, path.display());
+                lines.push((format!("VIOLATION property={} replay={}", self.prop, path.display()), not_reproduced_here));
                 printed += 1;
+            }
+        }
+
+        // a violation whose record did not reproduce it is listed above on stderr; its VIOLATION line
+        // is only printed when no other violation of the run reproduced (and the run then ends as a
+        // machinery failure, below)
+        for (line, not_reproduced) in &lines {
+            if !*not_reproduced || gate_reproduced == 0 {
+                println!("{line}");
             }
         }
 
